@@ -9,9 +9,24 @@ open PdfVerif PdfVerif.Lexer
 
 /-! ### token serialisation of an object tree -/
 
+/-- An object as WRITTEN: like `SObj`, but an indirect reference still has its generation number
+    (which `PDFObjRef` does not keep). -/
+inductive PObj where
+  | null
+  | bool (b : Bool)
+  | int (v : Int)
+  | real (text : Bytes)
+  | str (s : Bytes)
+  | lit (name : Bytes)
+  | kwd (name : Bytes)
+  | arr (items : List PObj)
+  | dict (entries : List (Bytes × PObj))
+  | ref (objid gen : Int)
+  deriving Repr, Inhabited
+
 mutual
-/-- The token sequence every conformant spelling of the tree lexes to (`n 0 R` for a reference). -/
-def ser : SObj → List Token
+/-- The token sequence every conformant spelling of the tree lexes to (`n g R` for a reference). -/
+def ser : PObj → List Token
   | .null => [.kwd kwNull]
   | .bool b => [.bool b]
   | .int v => [.int v]
@@ -21,18 +36,23 @@ def ser : SObj → List Token
   | .kwd n => [.kwd n]
   | .arr items => Token.kwd [91] :: (serList items ++ [Token.kwd [93]])
   | .dict es => Token.kwd [60, 60] :: (serEntries es ++ [Token.kwd [62, 62]])
-  | .ref n => [.int n, .int 0, .kwd kwR]
-def serList : List SObj → List Token
+  | .ref n g => [.int n, .int g, .kwd kwR]
+def serList : List PObj → List Token
   | [] => []
   | o :: r => ser o ++ serList r
-def serEntries : List (Bytes × SObj) → List Token
+def serEntries : List (Bytes × PObj) → List Token
   | [] => []
   | (k, v) :: r => Token.lit k :: (ser v ++ serEntries r)
 end
 
+def isNullP : PObj → Bool
+  | .null => true
+  | _ => false
+
 mutual
-/-- The value read back: a dictionary entry whose value is null is absent (ISO 32000-1 7.3.7). -/
-def norm : SObj → SObj
+/-- The value read back: a dictionary entry whose value is null is absent (ISO 32000-1 7.3.7); a
+    reference keeps its object number. -/
+def norm : PObj → SObj
   | .arr items => .arr (normList items)
   | .dict es => .dict (normEntries es)
   | .null => .null
@@ -42,36 +62,36 @@ def norm : SObj → SObj
   | .str s => .str s
   | .lit n => .lit n
   | .kwd n => .kwd n
-  | .ref n => .ref n
-def normList : List SObj → List SObj
+  | .ref n _ => .ref n
+def normList : List PObj → List SObj
   | [] => []
   | o :: r => norm o :: normList r
-def normEntries : List (Bytes × SObj) → List (Bytes × SObj)
+def normEntries : List (Bytes × PObj) → List (Bytes × SObj)
   | [] => []
-  | (k, v) :: r => if isNullS v then normEntries r else (k, norm v) :: normEntries r
+  | (k, v) :: r => if isNullP v then normEntries r else (k, norm v) :: normEntries r
 end
 
-def keysOf : List (Bytes × SObj) → List Bytes
+def keysOf : List (Bytes × PObj) → List Bytes
   | [] => []
   | (k, _) :: r => k :: keysOf r
 
 mutual
 /-- Trees in the domain: no bare keywords, dictionary keys distinct and UTF-8. -/
-def clean : SObj → Prop
+def clean : PObj → Prop
   | .kwd _ => False
   | .arr items => cleanList items
   | .dict es => cleanEntries es ∧ (keysOf es).Nodup ∧ ∀ k ∈ keysOf es, utf8Valid k = true
   | _ => True
-def cleanList : List SObj → Prop
+def cleanList : List PObj → Prop
   | [] => True
   | o :: r => clean o ∧ cleanList r
-def cleanEntries : List (Bytes × SObj) → Prop
+def cleanEntries : List (Bytes × PObj) → Prop
   | [] => True
   | (_, v) :: r => clean v ∧ cleanEntries r
 end
 
 /-- the operand stack holding the entries of a dictionary being read -/
-def pairsOf : List (Bytes × SObj) → List SObj
+def pairsOf : List (Bytes × PObj) → List SObj
   | [] => []
   | (k, v) :: r => .lit k :: norm v :: pairsOf r
 
@@ -114,21 +134,21 @@ theorem feed_null (st : PState) (h : Inside st) : feed st (.kwd kwNull) = push s
   have e7 : (kwNull == kwR) = false := by decide
   simp [feed, h.1, e1, e2, e3, e4, e5, e6, doKeyword, e7, push, isEmpty_false_of_ne h.2]
 
-theorem feed_ref (st : PState) (n : Int) (h : Inside st) :
-    feedAll st [.int n, .int 0, .kwd kwR] = push st (.ref n) := by
+theorem feed_ref (st : PState) (n g : Int) (h : Inside st) :
+    feedAll st [.int n, .int g, .kwd kwR] = push st (.ref n) := by
   have h1 := inside_push st (.int n) h
-  have h2 := inside_push (push st (.int n)) (.int 0) h1
-  simp only [feedAll_cons, feedAll_nil, feed_int st n h, feed_int _ 0 h1]
+  have h2 := inside_push (push st (.int n)) (.int g) h1
+  simp only [feedAll_cons, feedAll_nil, feed_int st n h, feed_int _ g h1]
   have e1 : (kwR == [91]) = false := by decide
   have e2 : (kwR == [93]) = false := by decide
   have e3 : (kwR == [60, 60]) = false := by decide
   have e4 : (kwR == [62, 62]) = false := by decide
   have e5 : (kwR == [123]) = false := by decide
   have e6 : (kwR == [125]) = false := by decide
-  have hlen : (st.curstack ++ [SObj.int n] ++ [SObj.int 0]).length - 2 = st.curstack.length := by simp
-  have hd : (st.curstack ++ [SObj.int n] ++ [SObj.int 0]).drop st.curstack.length = [SObj.int n, SObj.int 0] := by
+  have hlen : (st.curstack ++ [SObj.int n] ++ [SObj.int g]).length - 2 = st.curstack.length := by simp
+  have hd : (st.curstack ++ [SObj.int n] ++ [SObj.int g]).drop st.curstack.length = [SObj.int n, SObj.int g] := by
     rw [List.append_assoc, List.drop_left]; rfl
-  have ht : (st.curstack ++ [SObj.int n] ++ [SObj.int 0]).take st.curstack.length = st.curstack := by
+  have ht : (st.curstack ++ [SObj.int n] ++ [SObj.int g]).take st.curstack.length = st.curstack := by
     rw [List.append_assoc, List.take_left]
   simp only [feed, h2.1, push, Option.isSome_none, Bool.false_eq_true, if_false, e1, e2, e3, e4, e5, e6, doKeyword,
     beq_self_eq_true, if_true, hlen, hd, ht]
@@ -155,8 +175,8 @@ def closed (st : PState) (o : SObj) : PState :=
 theorem closed_inside (st : PState) (o : SObj) (h : Inside st) : closed st o = push st o := by
   simp [closed, isEmpty_false_of_ne h.2]
 
-theorem isNullS_norm (v : SObj) : isNullS (norm v) = isNullS v := by
-  cases v <;> simp [norm, isNullS]
+theorem isNullS_norm (v : PObj) : isNullS (norm v) = isNullP v := by
+  cases v <;> simp [norm, isNullS, isNullP]
 
 theorem dictSet_fresh (k : Bytes) (v : SObj) : ∀ (acc : List (Bytes × SObj)), k ∉ acc.map (·.1) →
     dictSet k v acc = acc ++ [(k, v)]
@@ -168,7 +188,7 @@ theorem dictSet_fresh (k : Bytes) (v : SObj) : ∀ (acc : List (Bytes × SObj)),
     simp only [dictSet, hne, Bool.false_eq_true, if_false, List.cons_append]
     rw [dictSet_fresh k v r (by simp only [List.map_cons, List.mem_cons, not_or] at h; exact h.2)]
 
-theorem keys_normEntries (es : List (Bytes × SObj)) : ∀ k ∈ (normEntries es).map (·.1), k ∈ keysOf es := by
+theorem keys_normEntries (es : List (Bytes × PObj)) : ∀ k ∈ (normEntries es).map (·.1), k ∈ keysOf es := by
   induction es with
   | nil => simp [normEntries]
   | cons e r ih =>
@@ -182,7 +202,7 @@ theorem keys_normEntries (es : List (Bytes × SObj)) : ∀ k ∈ (normEntries es
       · simp [keysOf]
       · simp [keysOf, ih k hk]
 
-theorem buildDict_pairs : ∀ (es : List (Bytes × SObj)) (acc : List (Bytes × SObj)),
+theorem buildDict_pairs : ∀ (es : List (Bytes × PObj)) (acc : List (Bytes × SObj)),
     (keysOf es).Nodup → (∀ k ∈ keysOf es, utf8Valid k = true) → (∀ k ∈ keysOf es, k ∉ acc.map (·.1)) →
     buildDict (pairsOf es) acc = some (acc ++ normEntries es)
   | [], acc, _, _, _ => by simp [pairsOf, buildDict, normEntries]
@@ -191,7 +211,7 @@ theorem buildDict_pairs : ∀ (es : List (Bytes × SObj)) (acc : List (Bytes × 
     have hk : utf8Valid k = true := hu k (by simp [keysOf])
     have hfr : k ∉ acc.map (·.1) := hf k (by simp [keysOf])
     simp only [pairsOf, buildDict, hk, if_true, isNullS_norm, normEntries]
-    by_cases hn : isNullS v = true
+    by_cases hn : isNullP v = true
     · simp only [hn, if_true]
       exact buildDict_pairs r acc hnd.2 (fun k' h' => hu k' (by simp [keysOf, h'])) (fun k' h' => hf k' (by simp [keysOf, h']))
     · simp only [hn, Bool.false_eq_true, if_false]
@@ -202,7 +222,7 @@ theorem buildDict_pairs : ∀ (es : List (Bytes × SObj)) (acc : List (Bytes × 
         simp only [List.map_append, List.map_cons, List.map_nil, List.mem_append, List.mem_singleton, not_or]
         exact ⟨hf k' (by simp [keysOf, h']), fun e => hnd.1 (e ▸ h')⟩
 
-theorem pairsOf_even (es : List (Bytes × SObj)) : (pairsOf es).length % 2 = 0 := by
+theorem pairsOf_even (es : List (Bytes × PObj)) : (pairsOf es).length % 2 = 0 := by
   induction es with
   | nil => rfl
   | cons e r ih => obtain ⟨k, v⟩ := e; simp only [pairsOf, List.length_cons]; omega
@@ -213,7 +233,7 @@ theorem feed_close_arr (st : PState) (objs : List SObj) (herr : st.error = none)
   simp only [feed, startType, herr, Option.isSome_none, Bool.false_eq_true, if_false, e1, beq_self_eq_true, if_true,
     endType, bne_self_eq_false, push, closed]
 
-theorem feed_close_dict (st : PState) (es : List (Bytes × SObj)) (herr : st.error = none)
+theorem feed_close_dict (st : PState) (es : List (Bytes × PObj)) (herr : st.error = none)
     (hnd : (keysOf es).Nodup) (hu : ∀ k ∈ keysOf es, utf8Valid k = true) :
     feed { startType st .d with curstack := pairsOf es } (.kwd [62, 62]) = closed st (.dict (normEntries es)) := by
   have e1 : (([62, 62] : Bytes) == [91]) = false := by decide
@@ -230,7 +250,7 @@ theorem inside_curstack (st : PState) (cs : List SObj) (h : Inside st) : Inside 
 
 mutual
 /-- Inside an open container, the tokens of any clean tree push exactly its value. -/
-theorem feed_ser : ∀ (v : SObj) (st : PState), Inside st → clean v → feedAll st (ser v) = push st (norm v)
+theorem feed_ser : ∀ (v : PObj) (st : PState), Inside st → clean v → feedAll st (ser v) = push st (norm v)
   | .null, st, h, _ => by simp [ser, feedAll_cons, feedAll_nil, feed_null st h, norm]
   | .bool b, st, h, _ => by simp [ser, feedAll_cons, feedAll_nil, feed_bool st b h, norm]
   | .int v, st, h, _ => by simp [ser, feedAll_cons, feedAll_nil, feed_int st v h, norm]
@@ -238,7 +258,7 @@ theorem feed_ser : ∀ (v : SObj) (st : PState), Inside st → clean v → feedA
   | .str s, st, h, _ => by simp [ser, feedAll_cons, feedAll_nil, feed_str st s h, norm]
   | .lit n, st, h, _ => by simp [ser, feedAll_cons, feedAll_nil, feed_lit st n h, norm]
   | .kwd _, _, _, hc => by simp [clean] at hc
-  | .ref n, st, h, _ => by simp only [ser, norm]; exact feed_ref st n h
+  | .ref n g, st, h, _ => by simp only [ser, norm]; exact feed_ref st n g h
   | .arr items, st, h, hc => by
     have ho := feed_open st (Or.inl h) [91] .a (Or.inl ⟨rfl, rfl⟩)
     simp only [clean] at hc
@@ -257,7 +277,7 @@ theorem feed_ser : ∀ (v : SObj) (st : PState), Inside st → clean v → feedA
     have e : ({ startType st .d with curstack := (startType st .d).curstack ++ pairsOf es } : PState)
         = { startType st .d with curstack := pairsOf es } := by simp [startType]
     rw [e, feed_close_dict st es h.1 hc.2.1 hc.2.2, closed_inside st _ h, norm]
-theorem feed_serList : ∀ (vs : List SObj) (st : PState), Inside st → cleanList vs →
+theorem feed_serList : ∀ (vs : List PObj) (st : PState), Inside st → cleanList vs →
     feedAll st (serList vs) = { st with curstack := st.curstack ++ normList vs }
   | [], st, _, _ => by simp [serList, feedAll_nil, normList]
   | o :: r, st, h, hc => by
@@ -265,7 +285,7 @@ theorem feed_serList : ∀ (vs : List SObj) (st : PState), Inside st → cleanLi
     simp only [serList, feedAll_append]
     rw [feed_ser o st h hc.1, feed_serList r (push st (norm o)) (inside_push st _ h) hc.2]
     simp [push, normList]
-theorem feed_serEntries : ∀ (es : List (Bytes × SObj)) (st : PState), Inside st → cleanEntries es →
+theorem feed_serEntries : ∀ (es : List (Bytes × PObj)) (st : PState), Inside st → cleanEntries es →
     feedAll st (serEntries es) = { st with curstack := st.curstack ++ pairsOf es }
   | [], st, _, _ => by simp [serEntries, feedAll_nil, pairsOf]
   | (k, v) :: r, st, h, hc => by
